@@ -119,7 +119,8 @@ def VSpace.size : VSpace → Nat
 
 inductive VPos where
   | num (p : Int)
-  | xyz (x y z : Int)
+  | xyz (x y z : Int)       -- a tuple / list of coordinates
+  | obj (x y z : Int)       -- an object with `x`, `y`, `z` attributes (the documented Coord-like form)
   deriving Repr
 
 /-- `space.get_cell_index(position)` -/
@@ -127,7 +128,10 @@ def VSpace.cellIndex : VSpace → VPos → Res Int
   | .grid g, .num p => pyCellIndexOfNum g p
   | .grid g, .xyz x y z => pyCellIndexOfCoords g x y z
   | .graph n, .num p => if graphNodeIndexBad n p then .error .outOfRange else .ok p
+  | .grid g, .obj x y z =>
+    if withinBoundsObj g.w g.h g.d x y z then .ok (cellIndexObj g.w g.h x y z) else .error .outOfRange
   | .graph _, .xyz _ _ _ => .error .typeError        -- `int(tuple)`
+  | .graph _, .obj _ _ _ => .error .typeError        -- `int(object)`
 
 /-- the position check of a positional accessor of the space classes (`get_cell_env`, `get_cell_vol`,
 `get_neighbors`, …): the cell index when the method validates its argument, nothing when it does not -/
